@@ -23,6 +23,7 @@ type oracle struct {
 	results []string // names of oracle parameters bound to the call's results
 	effect  string   // constructor of Gen.Eff recorded when the call is made ("" = none)
 	errOf   bool     // results are (pointer, error) and exactly one of them is nil
+	args    []int    // which arguments the recorded effect captures (nil = all)
 }
 
 type fnSpec struct {
@@ -37,6 +38,7 @@ type fnSpec struct {
 	subst        map[string]string // rendered Go expression -> oracle parameter
 	state        []stateField
 	effects      bool
+	loop         bool // translate one iteration of the receive loop inside the function (see translate)
 	uses         map[string]bool // translated functions this one calls (filled while translating)
 }
 
@@ -66,6 +68,56 @@ var specs = []fnSpec{
 			{goName: "election", goType: "*electionDetails", lean: "election", kd: kPtr("electionDetails")},
 		},
 		goRets: "*spb.ModifyResponse, bool, error", rets: []string{"mresp", "bool", "err"},
+	},
+	{
+		file: "server/server.go", goName: "modifyEntry", callAs: "modifyEntry", leanName: "modifyEntry",
+		params: []param{
+			{goName: "r", goType: "*rib.RIB", lean: "r", kd: kPtr("Unit")},
+			{goName: "ni", goType: "string", lean: "ni", kd: kStr},
+			{goName: "op", goType: "*spb.AFTOperation", lean: "op", kd: kPtr("AFTOperation")},
+			{goName: "fibACK", goType: "bool", lean: "fibACK", kd: kBool},
+			{goName: "election", goType: "*electionDetails", lean: "election", kd: kPtr("electionDetails")},
+		},
+		goRets: "*spb.ModifyResponse, error", rets: []string{"mresp", "err"},
+		oracleParams: []param{
+			{goName: "§niR", lean: "niR", kd: kPtr("Unit")},
+			{goName: "§niOk", lean: "niOk", kd: kBool},
+			{goName: "§niValid", lean: "niValid", kd: kBool},
+			{goName: "§addOks", lean: "addOks", kd: kind{k: "list", s: "OpResult"}},
+			{goName: "§addFails", lean: "addFails", kd: kind{k: "list", s: "OpResult"}},
+			{goName: "§addErr", lean: "addErr", kd: kind{k: "status"}},
+			{goName: "§delOks", lean: "delOks", kd: kind{k: "list", s: "OpResult"}},
+			{goName: "§delFails", lean: "delFails", kd: kind{k: "list", s: "OpResult"}},
+			{goName: "§delErr", lean: "delErr", kd: kind{k: "status"}},
+		},
+		oracles: map[string]oracle{
+			"r.NetworkInstanceRIB": {results: []string{"§niR", "§niOk"}},
+			"niR.IsValid":          {results: []string{"§niValid"}},
+			"r.AddEntry":           {results: []string{"§addOks", "§addFails", "§addErr"}, effect: "addEntry"},
+			"r.DeleteEntry":        {results: []string{"§delOks", "§delFails", "§delErr"}, effect: "deleteEntry"},
+		},
+		effects: true,
+	},
+	{
+		// one iteration of the Modify receive loop, after a message has been read
+		file: "server/server.go", goName: "Modify", callAs: "§Modify", leanName: "modifyDispatch", loop: true,
+		oracleParams: []param{
+			{goName: "cid", lean: "cid", kd: kStr},
+			{goName: "in", lean: "msg", kd: kPtr("ModifyRequest")},
+			{goName: "gotmsg", lean: "gotmsg", kd: kBool},
+			{goName: "§cpRes", lean: "cpRes", kd: kind{k: "mresp"}},
+			{goName: "§cpErr", lean: "cpErr", kd: kind{k: "status"}},
+			{goName: "§upErr", lean: "upErr", kd: kind{k: "status"}},
+			{goName: "§elRes", lean: "elRes", kd: kind{k: "mresp"}},
+			{goName: "§elErr", lean: "elErr", kd: kind{k: "status"}},
+		},
+		oracles: map[string]oracle{
+			"s.checkParams": {results: []string{"§cpRes", "§cpErr"}, effect: "checkParams"},
+			"s.updateParams": {results: []string{"§upErr"}, effect: "updateParams"},
+			"s.runElection":  {results: []string{"§elRes", "§elErr"}, effect: "runElection"},
+			"s.doModify":     {results: []string{}, effect: "doModify", args: []int{0}},
+		},
+		effects: true,
 	},
 	{
 		file: "server/server.go", goName: "checkFlushRequest", callAs: "s.checkFlushRequest", leanName: "checkFlushRequest",
